@@ -604,6 +604,45 @@ where
             if typed != *row || (ordered && format!("{typed:?}") != format!("{row:?}")) {
                 return Err(("typed-differs".to_string(), format!("try_into gives {typed:?}")));
             }
+            // the same row written field by field through the typed entry
+            // `set_field_as` (each field's own serialised value), read back,
+            // must give the same document and the same typed value
+            let parts = cbor2::Value::serialized(row)
+                .ok()
+                .and_then(|v| v.into_map().ok())
+                .ok_or_else(|| ("harness".to_string(), "row does not serialise to a map".to_string()))?;
+            let mut doc2 = Document::new(schema.clone());
+            for (k, v) in &parts {
+                let name = k.as_text().ok_or_else(|| ("harness".to_string(), "non-text field name".to_string()))?;
+                doc2.set_field_as(name, v).map_err(|e| {
+                    (format!("own-value-rejected|set_field_as|{name}"), format!("set_field_as rejects the struct's own field value: {e}"))
+                })?;
+            }
+            let mut bytes2 = Vec::new();
+            cbor2::to_writer(&doc2, &mut bytes2).map_err(|e| ("own-value-rejected|set_field_as".to_string(), format!("serialise: {e}")))?;
+            let back2 = read_back(&schema, &bytes2).map_err(|e| ("accepted-unreadable|set_field_as".to_string(), e))?;
+            for field in schema.iter() {
+                let same = match (doc.get_field(field.name()), back2.get_field(field.name())) {
+                    (None, None) => true,
+                    (Some(w), Some(b)) => model::same_declared(field.r#type(), w, b),
+                    _ => false,
+                };
+                if !same {
+                    return Err((
+                        format!("readback-differs|set_field_as|{}", field.name()),
+                        format!(
+                            "field {} built with set_field_as reads back {:?}, try_from stored {:?}",
+                            field.name(),
+                            back2.get_field(field.name()),
+                            doc.get_field(field.name())
+                        ),
+                    ));
+                }
+            }
+            let typed2: T = back2.try_into().map_err(|e| ("typed-fails|set_field_as".to_string(), format!("try_into fails: {e}")))?;
+            if typed2 != *row || (ordered && format!("{typed2:?}") != format!("{row:?}")) {
+                return Err(("typed-differs|set_field_as".to_string(), format!("try_into gives {typed2:?}")));
+            }
             Ok(())
         }));
         let fail = match res {
@@ -742,20 +781,197 @@ fn check_offers(run: &mut Run) {
     }
 }
 
+// ---- typed field probes: real Rust values through set_field_as / get_field_as ------
+
+/// One typed probe: `value` (a plain Rust value) is written into a field of
+/// type `ft` with `Document::set_field_as`; `as_fv` is the same value spelled
+/// as a FieldValue, which the reference model classifies (type, budget).
+/// Oracle: model says over budget / invalid => the write must fail; accepted
+/// => the stored bytes read back valid, the field equals the written one in
+/// the declared variant, and `get_field_as::<T>` returns the value.
+fn typed_probe<T>(run: &mut Run, only: Option<&str>, name: &str, ft: vschema::grammar::Ft, value: T, as_fv: vschema::values::Fv)
+where
+    T: Serialize + DeserializeOwned + PartialEq + Debug,
+{
+    if only.is_some_and(|o| o != name) {
+        return;
+    }
+    use vschema::model::Extract;
+    run.add("evaluations", 1);
+    run.add("typed_field_probes", 1);
+    run.distinct(util::fnv64(format!("probe|{name}").as_bytes()));
+    let schema = vschema::exec::schema_for(&ft);
+    let verdict = model::classify_extract(&ft, &as_fv);
+    let res = catch_unwind(AssertUnwindSafe(|| -> Result<bool, (String, String)> {
+        let mut doc = Document::new(schema.clone());
+        doc.set_id(1);
+        if doc.set_field_as("v", &value).is_err() {
+            return Ok(false);
+        }
+        let mut bytes = Vec::new();
+        if cbor2::to_writer(&doc, &mut bytes).is_err() {
+            return Ok(false);
+        }
+        if matches!(verdict, Extract::Reject) {
+            return Err(("invalid-accepted".into(), "set_field_as accepted a value that violates the declared type or the complexity budget".into()));
+        }
+        let back = read_back(&schema, &bytes).map_err(|e| ("accepted-unreadable".to_string(), e))?;
+        let got = back.get_field("v").ok_or_else(|| ("readback-differs".to_string(), "field missing".to_string()))?;
+        if let Extract::Accept(want) = &verdict
+            && !model::same_declared(&ft, want, got)
+        {
+            return Err(("readback-differs".into(), format!("reads back {got:?}")));
+        }
+        let typed: T = back.get_field_as("v").map_err(|e| ("typed-fails".to_string(), format!("get_field_as fails: {e}")))?;
+        if typed != value {
+            return Err(("typed-differs".into(), "get_field_as returns a different value".into()));
+        }
+        Ok(true)
+    }));
+    let problem = match res {
+        Ok(Ok(accepted)) => {
+            if accepted {
+                run.add("typed_field_probes_accepted", 1);
+            } else if matches!(verdict, Extract::Accept(_)) {
+                run.add("typed_field_probes_valid_but_rejected", 1);
+            }
+            None
+        }
+        Ok(Err(f)) => Some(f),
+        Err(p) => Some(("panic".to_string(), format!("panicked: {}", panic_msg(p)))),
+    };
+    if let Some((kind, detail)) = problem {
+        let class = name.trim_end_matches(|c: char| c.is_ascii_digit());
+        run.violation(Violation {
+            signature: format!("C13|set_field_as|{kind}|{class}"),
+            summary: format!("typed probe {name} (field type {ft:?}): {detail}"),
+            replay: json!({"probe": name}),
+        });
+    }
+}
+
+fn typed_probes(run: &mut Run, only: Option<&str>) {
+    use vschema::grammar::{self as g, Ft};
+    use vschema::values::{self, Fk, Fv};
+    let lens = [0usize, 1, 4095, 4096, 4097, 5000];
+    for n in lens {
+        let strs: Vec<String> = (0..n).map(|i| format!("t{i}")).collect();
+        typed_probe(run, only, &format!("vec_string_len{n}"), g::arr1(Ft::Text), strs.clone(), Fv::Array(strs.iter().cloned().map(Fv::Text).collect()));
+        typed_probe(
+            run,
+            only,
+            &format!("opt_vec_string_len{n}"),
+            g::opt(g::arr1(Ft::Text)),
+            Some(strs.clone()),
+            Fv::Array(strs.iter().cloned().map(Fv::Text).collect()),
+        );
+        let nums: Vec<u64> = (0..n as u64).map(|i| i * 1_000_003).collect();
+        typed_probe(run, only, &format!("vec_u64_len{n}"), g::arr1(Ft::U64), nums.clone(), Fv::Array(nums.iter().map(|x| Fv::U64(*x)).collect()));
+        let signed: Vec<i64> = (0..n as i64).map(|i| i - 2048).collect();
+        typed_probe(run, only, &format!("vec_i64_len{n}"), g::arr1(Ft::I64), signed.clone(), Fv::Array(signed.iter().map(|x| Fv::I64(*x)).collect()));
+        let m: BTreeMap<String, u64> = (0..n).map(|i| (format!("k{i}"), i as u64)).collect();
+        typed_probe(
+            run,
+            only,
+            &format!("btreemap_string_u64_entries{n}"),
+            g::wild_text(Ft::U64),
+            m.clone(),
+            Fv::Map(m.iter().map(|(k, v)| (Fk::Text(k.clone()), Fv::U64(*v))).collect()),
+        );
+        let mi: BTreeMap<i64, String> = (0..n as i64).map(|i| (i - 7, format!("v{i}"))).collect();
+        typed_probe(
+            run,
+            only,
+            &format!("btreemap_i64_string_entries{n}"),
+            g::wild_i64(Ft::Text),
+            mi.clone(),
+            Fv::Map(mi.iter().map(|(k, v)| (Fk::I64(*k), Fv::Text(v.clone()))).collect()),
+        );
+        // single-node leaves: no length limit applies
+        typed_probe(run, only, &format!("bytebuf_len{n}"), Ft::Bytes, ByteBuf::from(vec![7u8; n]), Fv::Bytes(vec![7u8; n]));
+        typed_probe(run, only, &format!("vec_u8_len{n}"), Ft::Bytes, vec![7u8; n], Fv::Bytes(vec![7u8; n]));
+        typed_probe(run, only, &format!("vec_bf16_len{n}"), Ft::Vector, vec![bf(0x3F80); n], values::vector(&vec![0x3F80; n]));
+        typed_probe(run, only, &format!("string_len{n}"), Ft::Text, "x".repeat(n), Fv::Text("x".repeat(n)));
+        let ja = serde_json::Value::Array(vec![json!(0); n]);
+        typed_probe(run, only, &format!("json_array_len{n}"), Ft::Json, ja.clone(), Fv::Json(ja));
+        let jo = serde_json::Value::Object((0..n).map(|i| (format!("k{i}"), json!(i))).collect());
+        typed_probe(run, only, &format!("json_object_entries{n}"), Ft::Json, jo.clone(), Fv::Json(jo));
+    }
+    // node count 16384 / 16385
+    for last in [4090usize, 4091] {
+        let inner = [4096usize, 4096, 4096, last, 0];
+        let total: usize = 1 + inner.len() + inner.iter().sum::<usize>();
+        let vv: Vec<Vec<u64>> = inner.iter().map(|n| vec![1u64; *n]).collect();
+        typed_probe(
+            run,
+            only,
+            &format!("vec_vec_u64_nodes{total}"),
+            g::arr1(g::arr1(Ft::U64)),
+            vv.clone(),
+            Fv::Array(vv.iter().map(|v| Fv::Array(v.iter().map(|x| Fv::U64(*x)).collect())).collect()),
+        );
+    }
+    // nesting towers in serde_json::Value (and inside typed containers)
+    for k in values::TOWER_HEIGHTS {
+        for (kind, j) in [
+            ("json_obj", values::nest_json_obj(k)),
+            ("json_arr", values::nest_json(k)),
+            ("json_mixed", values::nest_json_mixed(k, true)),
+        ] {
+            typed_probe(run, only, &format!("{kind}_nest{k}"), Ft::Json, j.clone(), Fv::Json(j.clone()));
+            typed_probe(run, only, &format!("opt_{kind}_nest{k}"), g::opt(Ft::Json), Some(j.clone()), Fv::Json(j.clone()));
+            typed_probe(run, only, &format!("vec_{kind}_nest{k}"), g::arr1(Ft::Json), vec![j.clone()], Fv::Array(vec![Fv::Json(j.clone())]));
+            typed_probe(
+                run,
+                only,
+                &format!("btreemap_{kind}_nest{k}"),
+                g::wild_text(Ft::Json),
+                BTreeMap::from([("k".to_string(), j.clone())]),
+                Fv::Map(BTreeMap::from([(Fk::Text("k".into()), Fv::Json(j.clone()))])),
+            );
+        }
+    }
+    // scalar boundaries through the typed entry
+    for (i, x) in [i64::MIN, -1, 0, i64::MAX].into_iter().enumerate() {
+        typed_probe(run, only, &format!("i64_boundary{i}"), Ft::I64, x, Fv::I64(x));
+    }
+    for (i, x) in [0u64, i64::MAX as u64, i64::MAX as u64 + 1, u64::MAX].into_iter().enumerate() {
+        typed_probe(run, only, &format!("u64_boundary{i}"), Ft::U64, x, Fv::U64(x));
+        // an unsigned value offered to a signed field: rejected above i64::MAX
+        typed_probe(run, only, &format!("u64_into_i64_field{i}"), Ft::I64, x, Fv::U64(x));
+    }
+    for (i, x) in F32S.into_iter().enumerate() {
+        typed_probe(run, only, &format!("f32_boundary{i}"), Ft::F32, x, Fv::F32(x));
+    }
+    for (i, x) in F64S.into_iter().enumerate() {
+        typed_probe(run, only, &format!("f64_boundary{i}"), Ft::F64, x, Fv::F64(x));
+        // a double offered to an F32 field: finite values beyond f32 range are rejected
+        typed_probe(run, only, &format!("f64_into_f32_field{i}"), Ft::F32, x as f32 as f64, Fv::F64(x as f32 as f64));
+    }
+    typed_probe(run, only, "f64_out_of_f32_range_into_f32_field", Ft::F32, 1e39f64, Fv::F64(1e39));
+    typed_probe(run, only, "negative_into_u64_field", Ft::U64, -1i64, Fv::I64(-1));
+    typed_probe(run, only, "string_into_u64_field", Ft::U64, "5".to_string(), Fv::Text("5".into()));
+    typed_probe(run, only, "none_into_required_field", Ft::Text, None::<String>, Fv::Null);
+    typed_probe(run, only, "tuple_arity_3_into_2", g::tuple(Ft::I64, Ft::Text), (1i64, "x".to_string(), 2u8), Fv::Array(vec![Fv::I64(1), Fv::Text("x".into()), Fv::U64(2)]));
+    typed_probe(run, only, "tuple_arity_2", g::tuple(Ft::I64, Ft::Text), (1i64, "x".to_string()), Fv::Array(vec![Fv::I64(1), Fv::Text("x".into())]));
+}
+
 fn main() {
     let mut run = Run::from_args("C13", "derive", "exploration");
     let mut only: Option<String> = None;
     let mut only_offer: Option<String> = None;
+    let mut only_probe: Option<String> = None;
     if let Some(file) = run.replay_file.clone() {
         let v: serde_json::Value = serde_json::from_slice(&std::fs::read(&file).expect("read replay")).expect("json");
         only = v["replay"]["struct"].as_str().map(|s| s.to_string());
         only_offer = v["replay"]["offer"].as_str().map(|s| s.to_string());
+        only_probe = v["replay"]["probe"].as_str().map(|s| s.to_string());
         if let Some(r) = v["replay"]["row"].as_u64() {
             run.args.push("--row".into());
             run.args.push(r.to_string());
         }
     }
-    let replaying = only.is_some() || only_offer.is_some();
+    let replaying = only.is_some() || only_offer.is_some() || only_probe.is_some();
     let want = |n: &str| if replaying { only.as_deref() == Some(n) } else { true };
 
     if want("Ints") {
@@ -798,8 +1014,12 @@ fn main() {
         check_offers(&mut run);
     }
 
+    if !replaying || only_probe.is_some() {
+        typed_probes(&mut run, only_probe.as_deref());
+    }
+
     run.rule(
-        "11 structs deriving AndaDBSchema (+ 3 nested FieldTyped structs + the built-in Resource) using every Rust field type the derive macros infer: u8..u64/usize, i8..i64/isize, f32, f64, bool, String, Cow<str>, Vec<u8>, [u8;N], serde_bytes ByteBuf/ByteArray, ByteBufB64/ByteArrayB64, Vec<bf16>, [bf16;N], Vector, Vec/BTreeSet/HashSet/[T;N] of T, BTreeMap/HashMap/serde_json::Map with String / signed-integer / bytes keys, Option (incl. nested in containers), Box, serde_json::Value / Json, nested structs (incl. serde rename / rename_all), and the attributes field_type (6 DSL forms), unique, serde rename / rename_all / skip / default + skip_serializing_if; every row of each struct's boundary table (all rows, no sampling) is round-tripped T -> Document -> CBOR -> DocumentOwned -> Document -> T; plus 26 typed offers to another struct's schema with one defect each (wrong type, out of range, null, missing / extra field or nested key) that must be rejected; distinct = (struct, row) and offers",
+        "11 structs deriving AndaDBSchema (+ 3 nested FieldTyped structs + the built-in Resource) using every Rust field type the derive macros infer: u8..u64/usize, i8..i64/isize, f32, f64, bool, String, Cow<str>, Vec<u8>, [u8;N], serde_bytes ByteBuf/ByteArray, ByteBufB64/ByteArrayB64, Vec<bf16>, [bf16;N], Vector, Vec/BTreeSet/HashSet/[T;N] of T, BTreeMap/HashMap/serde_json::Map with String / signed-integer / bytes keys, Option (incl. nested in containers), Box, serde_json::Value / Json, nested structs (incl. serde rename / rename_all), and the attributes field_type (6 DSL forms), unique, serde rename / rename_all / skip / default + skip_serializing_if; every row of each struct's boundary table (all rows, no sampling) is round-tripped T -> Document -> CBOR -> DocumentOwned -> Document -> T, once built with Document::try_from and once field by field with Document::set_field_as (every field of every row); plus typed field probes: plain Rust values (Vec<String>/Vec<u64>/Vec<i64>/Option<Vec<String>>/BTreeMap<String,u64>/BTreeMap<i64,String>/ByteBuf/Vec<u8>/Vec<bf16>/String/serde_json::Value/Vec<Vec<u64>>/tuples/scalars) of length 0,1,4095,4096,4097,5000, node count 16384/16385, serde_json nesting towers (objects, arrays, mixed; bare, in Option, Vec, BTreeMap) of height 63,64,65,66,70,100,128,130,140 and scalar boundaries, written with Document::set_field_as, read back from CBOR and fetched with Document::get_field_as::<T> (over budget / wrong type => must be rejected at write; accepted => must read back equal); plus 26 typed offers to another struct's schema with one defect each (wrong type, out of range, null, missing / extra field or nested key) that must be rejected; distinct = (struct, row) and offers",
     );
     run.assume("a struct's own value being rejected by the schema its derive generated is reported as a violation (the typed round trip would otherwise be vacuous)");
     run.assume("not covered: Arc/Rc fields (serde `rc` feature is off), #[cbor(key = N)] nested keys (cbor2 derive feature is off), borrowed &str / slices (serialise-only); Some(None) / Some(Json null) inside Option are skipped because serde itself cannot tell them from None");
